@@ -46,6 +46,11 @@ Split == /\ phase = "iter" /\ HasTerm(buf)
 Next == AddChar \/ InitRead \/ Refill \/ GiveUp \/ Split
 Spec == Init /\ [][Next]_vars
 
+(* liveness: on a finite input the iteration always terminates, whatever the stream does (it must make progress or
+   report the end of the data: read() returning nothing) - checked with weak fairness on the composite step *)
+FairSpec == Spec /\ WF_vars(Next)
+Terminates == <>(phase = "done")
+
 (* X12Reader.__iter__ on one raw line: leading blank -> error, lstrip; blank-only line skipped; trailing separator flagged *)
 ReaderLine(line) == LET l2 == IF line[1] = BLANK THEN StripLead(line, {BLANK, CR, LF}) ELSE line IN
                     [skip |-> l2 = <<>>, blank |-> line[1] = BLANK,
